@@ -75,6 +75,8 @@ def dec(k):
 LIFT_SCALE = {Fr(11, 10): Fr(501, 500), Fr(9, 10): Fr(499, 500)}
 GTOUCH = ("unitcell", "B", "U", "UB", "mt", "rmt", "name", "translation", "npks")
 MTOUCH = ("U", "B", "UB", "mt", "unitcell", "euler", "dzero_unitcell")
+GFAILS = ("short_cell", "none_ref", "degenerate_cell", "bad_m", "singular_ref", "flat_ubi")
+MFAILS = ("phase_ids", "pidshape", "phase_entry", "ubi")
 
 
 # ------------------------------------------------------------------------------------------------
@@ -142,6 +144,10 @@ class GrainHistory(object):
                     raise common.MachineryError("dask without a DeformationGradientTensor")
                 self._check(o, snap[0], snap[1], check_ans)
                 self.ops.append((op, int(o["m2"]), o["frame"], snap[0], snap[1]))
+            elif op in ("askfail", "dgtfail", "daskfail"):
+                if o["bad"] not in GFAILS or (op == "daskfail" and snap is None):
+                    raise common.MachineryError("unknown / impossible failing request %r" % (o,))
+                self.ops.append((op, o["bad"], o.get("frame", "ref")))
             elif op == "dread":
                 if snap is None:
                     raise common.MachineryError("dread without a DeformationGradientTensor")
@@ -246,7 +252,11 @@ class GrainReplayer(object):
                       "dgt_from_grain_objects_carrying_another_cell": 0,
                       "ask_reference_grain_of_another_cell_scale": 0,
                       "ask_cell_of_another_scale_than_the_previous_request": 0,
-                      "ask_near_cell_half_percent": 0}
+                      "ask_near_cell_half_percent": 0,
+                      # requests that raise leave no trace
+                      "failed_requests": 0, "failed_requests_that_raised": 0,
+                      "failed_eps_request_then_answered_request": 0,
+                      "failed_dgt_request_then_answered_dgt_request": 0}
 
     def cmp(self, route, hi, oi, got, exp, extra):
         self.ncmp += 1
@@ -284,6 +294,7 @@ class GrainReplayer(object):
         reoriented = False
         newobj = False
         ndec = [0]
+        failed_g = failed_d = False     # a request on g / on D (or its constructor) raised since the last answer
         st_ = self.stats
         st_["histories"] += 1
         st_["lifted_histories"] += bool(H.rec.get("lifted"))
@@ -370,6 +381,8 @@ class GrainReplayer(object):
                           "reference_grain_carries": None if rd is None else str(rd)})
                 st_["asks"] += 1
                 st_["asks_m0"] += (m2 == 0)
+                st_["failed_eps_request_then_answered_request"] += failed_g
+                failed_g = False
                 key = (rk, str(Q), k)              # same reference matrix B as an earlier question
                 if key in asked_refs and asked_refs[key] < nset:
                     st_["ask_again_after_set_ubi_same_reference"] += 1
@@ -419,6 +432,8 @@ class GrainReplayer(object):
                 self.cmp("history: DeformationGradientTensor.finite_strain_%s" % frame, hi, oi, got, exp,
                          {"m": m, "frame": frame})
                 st_["dgt_asks"] += 1
+                st_["failed_dgt_request_then_answered_dgt_request"] += failed_d
+                failed_d = False
                 dinfo["ms"].add(m2)
                 if len(dinfo["ms"]) >= 2 and not dinfo["counted"]:
                     dinfo["counted"] = True
@@ -426,6 +441,51 @@ class GrainReplayer(object):
                 if nset > dinfo["nset"] and not dinfo["late"]:
                     dinfo["late"] = True
                     st_["dgt_asked_after_set_ubi_of_its_grain"] += 1
+            elif op in ("askfail", "dgtfail", "daskfail"):
+                # a request that cannot be answered: it should raise, and whatever it does it may leave no trace on
+                # g, g0 and the DeformationGradientTensor object D that exists (judged by the answers that follow)
+                _, bad, frame = o
+                st_["failed_requests"] += 1
+                cell = cell_of(Fr(1))
+                m = 0.5
+                if bad == "short_cell":
+                    refarg = cell[:5]
+                elif bad == "none_ref":
+                    refarg = None
+                elif bad == "degenerate_cell":
+                    refarg = [[0.0] + cell[1:], cell[:3] + [0.0, 90.0, 90.0]][oi % 2]
+                elif bad == "singular_ref":
+                    refarg = G([np.zeros((3, 3)), np.array([[1.0, 0, 0], [2.0, 0, 0], [0, 0, 1.0]])][oi % 2])
+                    m = -0.5
+                else:
+                    refarg = [cell, g0][oi % 2]
+                    m = [0.3, 0.75, -0.2][oi % 3]
+                try:
+                    if op == "askfail":
+                        fn = [g.eps_grain_matrix, g.eps_grain][oi % 2] if frame == "ref" else \
+                             [g.eps_sample_matrix, g.eps_sample][oi % 2]
+                        fn(refarg, m)
+                        failed_g = True
+                    elif op == "daskfail":
+                        (D.finite_strain_ref if frame == "ref" else D.finite_strain_lab)(m)
+                        failed_d = True
+                    else:
+                        failed_d = failed_g = True
+                        if bad == "flat_ubi":
+                            self.fs.DeformationGradientTensor(g.ubi.ravel(), cellB)
+                        elif bad == "none_ref":
+                            self.fs.DeformationGradientTensor(g, None)
+                        else:
+                            tmp = self.fs.DeformationGradientTensor([g, g.ubi.copy()][oi % 2], np.diag([1.0, 1.0, 0.0]))
+                            tmp.finite_strain_ref(-1)      # F^T.F has an exactly zero row: matrix_power(.., -1) raises
+                except common.MachineryError:
+                    raise
+                except Exception:
+                    st_["failed_requests_that_raised"] += 1
+                    if op == "askfail":
+                        failed_g = True
+                    elif op == "daskfail":
+                        failed_d = True
             elif op == "dread":
                 _, field, st, Q = o
                 Qf = X.f2np(Q)
@@ -612,7 +672,15 @@ class MapReplayer(object):
                       "touches": 0, "explicit_dzero_map_at_construction": 0, "explicit_dzero_map_set_by_item": 0,
                       "explicit_dzero_map_set_by_add_map": 0, "explicit_dzero_map_set_after_a_read": 0,
                       "reads_relative_to_explicit_map_with_other_cells_in_phases": 0,
-                      "reads_relative_to_nominal_phase_cells": 0}
+                      "reads_relative_to_nominal_phase_cells": 0,
+                      # requests that raise leave no trace
+                      "failed_reads": 0, "failed_reads_that_raised": 0, "failed_reads_no_phase_ids_map": 0,
+                      "failed_reads_phase_ids_of_another_shape": 0, "failed_reads_phases_entry_no_unitcell": 0,
+                      "failed_reads_malformed_UBI": 0, "failed_reads_of_dzero_unitcell_itself": 0,
+                      "read_answered_after_failed_read_and_repair": 0,
+                      "read_answered_after_failed_read_and_explicit_dzero_map": 0,
+                      "read_answered_after_failed_read_and_proper_UBI": 0,
+                      "read_answered_on_incomplete_map_with_explicit_dzero_map": 0}
 
     def replay(self, hi, B):
         """an exception of the code under test is a failure of that history, not of the harness"""
@@ -632,9 +700,21 @@ class MapReplayer(object):
         for i, p in enumerate(B.pd):                         # insertion order = pd
             phases[p] = self.unitcell.unitcell(B.nominal_cell(i), symmetry=["P", 1, "F", 194][(hi + i) % 4],
                                                name="phase%d" % p)
+        miss = h[0].get("miss", "none")
+        if miss != "none" and miss not in MFAILS[:3]:
+            raise common.MachineryError("newmap: unknown way of being incomplete %r" % (miss,))
         maps0 = {"UBI": B.ubi(1), "phase_ids": B.phase_ids()}
+        if miss in ("phase_ids", "pidshape"):          # what TensorMap.from_ubis / from_pbpmap hand out
+            del maps0["phase_ids"]
+        hsel = sum(B.pd) + len(h) + B.shape[1]     # choices below: a function of the history (the same in --replay)
+        badid = B.pd[hsel % len(B.pd)]
+        if miss == "phase_entry":                      # the six parameters / nothing instead of the unitcell object
+            good_entry = phases[badid]
+            phases[badid] = [list(B.nominal_cell(B.pd.index(badid))), None][(hsel // 2) % 2]
         if h[0].get("dzx"):
             maps0["dzero_unitcell"] = B.dzmap()
+        failed = None                                  # cause of the last read that raised, until a read is answered
+        fixed = None                                   # how the map was completed after it
         nominal = any(k != 1 for k in B.scales)
         nreads = 0
         st = self.stats
@@ -650,8 +730,39 @@ class MapReplayer(object):
         sink = io.StringIO()
         with contextlib.redirect_stdout(sink):
             T = tm.TensorMap(maps=maps0, phases=phases)
+            if miss == "pidshape":
+                T.add_map("phase_ids", [B.phase_ids().ravel(), B.phase_ids().reshape(-1, B.shape[2])][hsel % 2])
             for oi, o in enumerate(h):
                 if o["op"] == "newmap":
+                    continue
+                if o["op"] == "readfail":
+                    # the model says this request cannot be answered: it should raise; whatever it does, it may leave
+                    # no trace on the map (judged by the reads that follow)
+                    st["failed_reads"] += 1
+                    nm = "dzero_unitcell" if o["f"] == "z" else MAPNAME[o["f"]]
+                    try:
+                        getattr(T, nm)
+                    except common.MachineryError:
+                        raise
+                    except Exception:
+                        st["failed_reads_that_raised"] += 1
+                        st[{"phase_ids": "failed_reads_no_phase_ids_map", "pidshape": "failed_reads_phase_ids_of_another_shape",
+                            "phase_entry": "failed_reads_phases_entry_no_unitcell",
+                            "ubi": "failed_reads_malformed_UBI"}[o["why"]]] += 1
+                        st["failed_reads_of_dzero_unitcell_itself"] += (o["f"] == "z")
+                        failed, fixed = o["why"], None
+                    continue
+                if o["op"] == "repair":
+                    if o["what"] != miss:
+                        raise common.MachineryError("repair of %r on a map that lacks %r" % (o["what"], miss))
+                    if miss == "phase_entry":
+                        T.phases[badid] = good_entry
+                    elif o["way"] == "item":
+                        T["phase_ids"] = B.phase_ids()
+                    else:
+                        T.add_map("phase_ids", B.phase_ids())
+                    if failed not in (None, "ubi"):
+                        fixed = "repair"
                     continue
                 if o["op"] == "setdz":
                     if o["way"] == "item":
@@ -660,6 +771,8 @@ class MapReplayer(object):
                         T.add_map("dzero_unitcell", B.dzmap())
                     st["explicit_dzero_map_set_by_" + o["way"]] += 1
                     st["explicit_dzero_map_set_after_a_read"] += (nreads > 0)
+                    if failed not in (None, "ubi"):
+                        fixed = "setdz"
                     continue
                 if o["op"] == "touch":
                     if o["what"] not in MTOUCH:
@@ -668,7 +781,12 @@ class MapReplayer(object):
                     st["touches"] += 1
                     continue
                 if o["op"] == "assign":
-                    arr = B.ubi(int(o["ver"]))
+                    if int(o["ver"]) == 0:             # a malformed UBI map: flattened matrices / nothing
+                        arr = [B.ubi(1).reshape(B.shape + (9,)), None][(hsel + oi) % 2]
+                    else:
+                        arr = B.ubi(int(o["ver"]))
+                        if failed == "ubi":
+                            fixed = "ubi"
                     if o["way"] == "setter":
                         T.UBI = arr
                     elif o["way"] == "item":
@@ -681,6 +799,13 @@ class MapReplayer(object):
                 got = np.array(getattr(T, name), float)
                 dzs = o.get("dzs", "maps")
                 nreads += 1
+                if failed is not None and fixed is not None:
+                    st[{"repair": "read_answered_after_failed_read_and_repair",
+                        "setdz": "read_answered_after_failed_read_and_explicit_dzero_map",
+                        "ubi": "read_answered_after_failed_read_and_proper_UBI"}[fixed]] += 1
+                failed = fixed = None
+                st["read_answered_on_incomplete_map_with_explicit_dzero_map"] += (
+                    dzs == "maps" and miss != "none" and not any(x["op"] == "repair" for x in h[:oi]))
                 st["reads_relative_to_explicit_map_with_other_cells_in_phases"] += (dzs == "maps" and nominal)
                 st["reads_relative_to_nominal_phase_cells"] += (dzs == "phases" and nominal)
                 self.ncmp += 1
@@ -721,6 +846,8 @@ def parse_histories(printed):
         try:
             r = json.loads(line)
             assert r["kind"] in ("grain", "map") and isinstance(r["hist"], list) and r["hist"]
+            for o in r["hist"]:
+                o.pop("pre", None)          # the state a failing request found: checked by TLC (HNoTrace / MapNoTrace)
             recs.append(r)
         except Exception:
             bad += 1
